@@ -703,6 +703,19 @@ class Object(base.Symbolic, metaclass=ObjectMeta):
             f'{self.__class__.__name__}.__init__() missing {len(missing_args)} '
             f'required {arg_phrase}: {keys_str}.')
 
+    # NOTE: The children of the attribute dict get their parent only after the
+    # dict is attached to this object, so a parent-less symbolic value passed
+    # for several arguments would not be recognized as already placed. Every
+    # occurrence after the first one gets a copy (as for any value that already
+    # has a place).
+    seen_ids = set()
+    for key, value in field_args.items():
+      if isinstance(value, base.Symbolic) and value.sym_parent is None:
+        if id(value) in seen_ids:
+          field_args[key] = value.clone()
+        else:
+          seen_ids.add(id(value))
+
     self._set_raw_attr(
         '_sym_attributes',
         pg_dict.Dict(
